@@ -14,6 +14,10 @@ from .srcmodel import AnalysisError
 
 
 def main(argv=None) -> int:
+  import gc
+
+  gc.disable()  # allocation-heavy, short-lived process: the cyclic GC only costs time here
+  sys.setrecursionlimit(10000)
   ap = argparse.ArgumentParser()
   ap.add_argument("prop")
   ap.add_argument("--tier", default=os.environ.get("VERIF_TIER", "quick"), choices=["quick", "thorough"])
